@@ -10,7 +10,7 @@ ROOT = os.path.dirname(os.path.dirname(os.path.abspath(__file__)))
 TEMPLATES = {}
 
 
-def make_replay(pid, v, path, tier):
+def make_replay(pid, v, path, tier, use_templates=True):
     doc = {
         "property": pid,
         "failed_obligation": v.get("obligation_id"),
@@ -29,7 +29,7 @@ def make_replay(pid, v, path, tier):
     except Exception as e:  # templates are optional
         doc["template_error"] = repr(e)
     key = (v.get("label") or "internal")
-    for lab, fn in TEMPLATES.items():
+    for lab, fn in (TEMPLATES.items() if use_templates else []):
         if key.startswith(lab) or (lab == "*"):
             try:
                 r = fn(pid, v, tier)
